@@ -228,7 +228,7 @@ def run_c15(tier):
     reasons = {}
     for e in stops:
         reasons[e["reason"]] = reasons.get(e["reason"], 0) + 1
-    if len(reasons) < 3:
+    if len(reasons) < 3 and not findings and not summ.get("panics") and not summ.get("runs_abandoned_as_too_slow"):
         raise ToolError("recorder exercised only stop reasons %s: vacuous" % reasons)
     cov = {"states": sum(s["distinct"] for s in mst.values()) + st["distinct"],
            "transitions": sum(s["generated"] for s in mst.values()) + st["generated"],
